@@ -418,6 +418,18 @@ def mutate_string(s, rng):
 # --------------------------------------------------------------------------
 # pool
 # --------------------------------------------------------------------------
+def _atom_count(text):
+    lines = text.splitlines()
+    try:
+        if len(lines) > 5 and "V3000" in lines[3]:
+            return int(lines[5].split()[3])
+        if len(lines) > 3 and "V2000" in lines[3]:
+            return int(lines[3][0:3])
+    except (ValueError, IndexError):
+        pass
+    return None
+
+
 class Pool:
     """Input texts of a batch.  ids: T<n> molfiles (valid or not), S<n> strings."""
 
@@ -435,6 +447,8 @@ class Pool:
         self.meta = {}
 
     def add(self, prefix, text, bucket, **meta):
+        if prefix == "T" and "n" not in meta:
+            meta["n"] = _atom_count(text)
         tid = f"{prefix}{sum(1 for k in self.texts if k.startswith(prefix))}"
         self.texts[tid] = text
         bucket.append(tid)
@@ -587,6 +601,8 @@ class _ClientGen:
         self.mols, self.strs, self.bad_mols, self.files = mols, strs, bad_mols, files
         self.rewrites = rewrites or {}  # private path -> list of text ids that may be written to it
         self.valid_strs = set()  # ids of strings expected to be accepted
+        self.mult = {}  # swarm: per-run multipliers of the op weights
+        self.seed_palette = None  # C16: the few permutation seeds this run uses
         self.multi = multi
         self.ops = []
         self.live = {"graph": [], "canon": [], "string": [], "moltext": []}
@@ -632,8 +648,8 @@ class _ClientGen:
         u = r.random()
         if u < 0.40 and self.mols:
             return self._add({"op": "read", "text": r.choice(self.mols)}, "graph")
-        if u < 0.50 and self.files:
-            if self.rewrites and r.random() < 0.6:
+        if u < 0.40 + self.mult.get("file_p", 0.10) and self.files:
+            if self.rewrites and r.random() < self.mult.get("rewrite_p", 0.6):
                 path = r.choice(sorted(self.rewrites))
                 u2 = r.random()
                 if u2 < 0.5:
@@ -668,6 +684,8 @@ class _ClientGen:
             w = [("source", 12), ("canon", 22), ("serialize", 22), ("parse_reg", 2), ("write", 3), ("read_reg", 1), ("permute", 3), ("again", 18), ("mutate", 9), ("drop", 4), ("gc", 2), ("rng", 1), ("clock", 1), ("edit", 12)]
         else:
             w = [("source", 12), ("canon", 4), ("serialize", 2), ("parse_reg", 1), ("write", 1), ("read_reg", 0), ("permute", 38), ("again", 16), ("mutate", 9), ("drop", 3), ("gc", 2), ("rng", 12), ("clock", 0), ("edit", 6)]
+        if self.mult:
+            w = [(k, x * self.mult.get(k, 1)) for k, x in w]
         k = _wchoice(r, w)
         if k == "source":
             return self.source()
@@ -691,7 +709,10 @@ class _ClientGen:
                 return self._add({"op": "read", "arg": r.choice(self.live["moltext"])}, "graph")
             return self.source()
         if k == "permute":
-            seed = r.choice([0.0, 0.5, 0.25, 0.999999, round(r.random(), 3), r.random()])
+            if self.seed_palette:
+                seed = r.choice(self.seed_palette) if r.random() < 0.85 else round(r.random(), 3)
+            else:
+                seed = r.choice([0.0, 0.5, 0.25, 0.999999, round(r.random(), 3), r.random()])
             i = self._add({"op": "permute", "arg": r.choice(g), "seed": seed}, None)
             if not self.multi:
                 self.live["graph"].append(i)
@@ -768,6 +789,17 @@ def gen_spec(run_seed, prop, pool, hashseeds, knobs=None):
     k_m = rng.randint(1, 5)
     k_s = rng.randint(1, 6)
     mols = rng.sample(pool.mol_valid, min(k_m, len(pool.mol_valid)))
+    if rng.random() < (0.6 if prop == "C16" else 0.25) and mols:
+        # molecules of equal atom count meet in one run (caches keyed by size/labels)
+        n0 = pool.meta[mols[0]].get("n")
+        same = [t for t in pool.mol_valid if pool.meta[t].get("n") == n0 and t not in mols]
+        if n0 is not None and same:
+            mols = mols[:2] + rng.sample(same, min(len(same), 3))
+    # swarm: every run stresses its own mix of operations
+    mult = {k: rng.choice([0.3, 1, 1, 1, 3]) for k in ("source", "canon", "serialize", "parse_reg", "write", "read_reg", "permute", "again", "mutate", "drop", "gc", "rng", "clock", "edit")}
+    mult["rewrite_p"] = rng.choice([0.3, 0.6, 0.9])
+    mult["file_p"] = rng.choice([0.05, 0.10, 0.10, 0.35])
+    palette = [rng.choice([0.0, 0.5, 0.25, 0.999999, 0.42, round(rng.random(), 2), rng.random()]) for _ in range(rng.randint(1, 3))]
     # a molecule and its redrawing (same skeleton and atom order) often meet in one run
     for t in list(mols):
         r = pool.redrawn.get(t)
@@ -803,6 +835,8 @@ def gen_spec(run_seed, prop, pool, hashseeds, knobs=None):
                     rewrites[path].append(pool.redrawn[m])
         cg = _ClientGen(own_rng, prop, cls, mols, strs, bad, fpaths, multi, rewrites)
         cg.valid_strs = set(valid_strs)
+        cg.mult = mult
+        cg.seed_palette = palette
         while len(cg.ops) < nops:
             cg.step()
         return cg.ops
@@ -853,7 +887,7 @@ def gen_spec(run_seed, prop, pool, hashseeds, knobs=None):
         "gc_auto": rng.choice([None, None, None, [700, 10, 10], [100, 5, 5], [20, 2, 2]]),
         "stall": rng.randrange(nthreads) if (cls == "D" and rng.random() < 0.3) else None,
         "clock_start": rng.choice(_CLOCKS) if rng.random() < 0.5 else float(rng.randrange(0, 4102444800)),
-        "fs_mtime_gran": rng.choice([1e-9, 1e-9, 1e-6, 1e-3, 1.0, 1.0, 2.0]),
+        "fs_mtime_gran": rng.choice([1e-9, 1e-6, 1e-3, 1.0, 1.0, 2.0, 2.0]),
         "texts": {t: pool.texts[t] for t in sorted(used)},
         "files": files,
         "warmup": warm,
